@@ -18,7 +18,7 @@ Src == <<"A","src">>
 MCOut == <<"A","out">>
 D7 == DirNode(755, 1)
 
-MCNameOrder == <<"", "-n", ".", "..", "..n", ".git", ".terraform", ".terraformignore", "A", "a", "a+b", "aab", "ab", "b", "cw", "e", "ef", "ext", "ext2",
+MCNameOrder == <<"", " ", "-n", ".", "..", "..n", ".git", ".terraform", ".terraformignore", "A", "a", "a+b", "aab", "ab", "b", "big", "cw", "e", "ef", "ext", "ext2",
                  "f", "fifo", "g", "k", "l", "la", "lb", "lc", "ld", "m", "modules", "out", "p", "q", "ra", "rl", "rl2", "s", "s.n", "src", "srcx", "t", "x", "y", "z">>
 MCNameChars == [n \in { MCNameOrder[i] : i \in DOMAIN MCNameOrder } |->
    CASE n = ".git" -> DotGit [] n = ".terraform" -> DotTerraform [] n = "modules" -> Modules
@@ -27,7 +27,7 @@ MCNameChars == [n \in { MCNameOrder[i] : i \in DOMAIN MCNameOrder } |->
      [] n = "fifo" -> <<"f","i","f","o">> [] n = "la" -> <<"l","a">> [] n = "lb" -> <<"l","b">> [] n = "out" -> <<"o","u","t">>
      [] n = "src" -> <<"s","r","c">> [] n = "srcx" -> <<"s","r","c","x">> [] n = "cw" -> <<"c","w">> [] n = "rl" -> <<"r","l">>
      [] n = "..n" -> <<".",".","n">> [] n = "s.n" -> <<"s",".","n">> [] n = "rl2" -> <<"r","l","2">> [] n = "ra" -> <<"r","a">> [] n = ".." -> <<".",".">>
-     [] n = "-n" -> <<"-","n">> [] n = "lc" -> <<"l","c">> [] n = "ld" -> <<"l","d">>
+     [] n = "-n" -> <<"-","n">> [] n = "big" -> <<"b","i","g">> [] n = "lc" -> <<"l","c">> [] n = "ld" -> <<"l","d">>
      [] OTHER -> <<n>>]
 
 ArenaBase ==
@@ -61,6 +61,7 @@ TreeCore(tf, md, zm) ==
   @@ (<<"A","src","s","g">> :> FileNode(600, 2, 2)) @@ (<<"A","src","e">> :> DirNode(md, 4))
   @@ (<<"A","src","z">> :> FileNode(zm, 2, 0)) @@ (<<"A","src","p">> :> FifoNode(644, 2))
   @@ (<<"A","src","s.n">> :> FileNode(644, 2, 4))
+  @@ (<<"A","src","big">> :> FileNode(644, 2, 9000))          \* 36 000 bytes: larger than any buffer a copy loop might special-case
 
 SafetyTrees(tl, tk, tm) ==
   { LinkSlot(<<"A","src","l">>, <<"..","ext","s">>) @@ LinkSlot(<<"A","ext","s","k">>, k2) @@ TreeCore(2, 755, 644) @@ ArenaBase : k2 \in TK2 }
@@ -70,11 +71,14 @@ SafetyTrees(tl, tk, tm) ==
     : l \in tl \cup {<<"-">>}, k \in tk \cup {<<"-">>}, m \in tm \cup {<<"-">>},
       tf \in {2}, md \in {755}, zm \in {644} }
   \cup { TreeCore(tf, md, zm) @@ ArenaBase : tf \in {1024, 1025, 1026, 2}, md \in {755, 500, 700}, zm \in {0, 444, 777} }
+  \* the same relative target text at two depths: b/q -> ../f stays inside and is walked first, l -> ../f leaves the tree
+  \cup { (<<"A","src","b">> :> D7) @@ LinkSlot(<<"A","src","b","q">>, <<"..","f">>) @@ LinkSlot(<<"A","src","l">>, <<"..","f">>) @@ TreeCore(2, 755, 644) @@ ArenaBase }
 
 \* ---- round-trip universe (C02): relative in-tree links incl. dangling and chained, modes, times ----
 \* names beginning with two dots or a dash; a directory and a file with fractional mtimes (.5 rounds up, .6 up, .4 down)
 DotDotNames == (<<"A","src","..n">> :> FileNode(644, 1024, 3)) @@ (<<"A","src","s","..n">> :> DirNode(755, 1035))
                @@ (<<"A","src","-n">> :> FileNode(640, 1026, 3))
+               @@ (<<"A","src"," ">> :> FileNode(644, 2, 2))                 \* a name that is nothing but a blank
                \* what the built-in rules exclude and re-include: .terraform goes, .terraform/modules stays - as a directory too
                @@ (<<"A","src",".terraform">> :> DirNode(750, 3)) @@ (<<"A","src",".terraform","x">> :> FileNode(644, 2, 5))
                @@ (<<"A","src",".terraform","modules">> :> DirNode(700, 1035)) @@ (<<"A","src",".terraform","modules","f">> :> FileNode(600, 2, 6))
@@ -110,6 +114,12 @@ RuleLists ==
     [] RuleMode = "single" -> { <<r>> : r \in { x \in RulesU : ~x.neg } }
     [] RuleMode = "pair" -> { <<r, q>> : r \in { x \in RulesS : ~x.neg }, q \in { x \in RulesS : x.neg } }
     [] RuleMode = "pairq" -> { <<r, q>> : r \in { x \in RulesS : ~x.neg /\ x.dir }, q \in { x \in RulesS : x.neg /\ ~x.anch } }
+    \* four rules with two negations: a directory rule sits right before the second negation, which re-includes
+    \* something below that directory (the negationsAfter marks of rules between two negations)
+    [] RuleMode = "quad" -> { << SR(FALSE, a1, TRUE, <<d1>>), SR(TRUE, a1, FALSE, <<d1, <<"b">>>>), SR(FALSE, a2, TRUE, <<d2>>), SR(TRUE, a2, FALSE, <<d2, k>>) >>
+                                : d1 \in { <<"a">>, <<"a","b">> }, d2 \in { <<"a">>, <<"a","b">> }, k \in { <<"b">>, <<"a">>, <<"*">> }, a1 \in BOOLEAN, a2 \in BOOLEAN }
+                              \cup { << SR(FALSE, FALSE, FALSE, x), SR(TRUE, FALSE, FALSE, y), SR(FALSE, FALSE, TRUE, <<d2>>), SR(TRUE, FALSE, FALSE, <<d2, k>>) >>
+                                : x \in { <<<<"b">>>>, <<<<"*">>>> }, y \in { <<<<"a">>, <<"b">>>>, <<<<"a","b">>>> }, d2 \in { <<"a">>, <<"a","b">> }, k \in { <<"b">>, <<"a">> } }
     [] OTHER -> { <<>> }
 
 -----------------------------------------------------------------------------
